@@ -1,10 +1,10 @@
 (* Correspondence for C13 (uamiv): Memmap reader vs record reader on the same reference-encoded file,
    plus the translated seek arithmetic against the offsets at which the library actually seeks. *)
-From PNC Require Export Base.Util Base.Words Gen.Camx Model.Uamiv.
+From PNC Require Export Base.Util Base.Words Gen.Camx Model.Uamiv Model.One3d.
 From PNC Require Import Corr.C09.
 Local Open Scope Z_scope.
 
-Record case_t := Case {
+Record ucase13 := Case {
   c_u : uamiv;
   c_hours : list (Z * Z);
   c_ref : list word;
@@ -20,7 +20,7 @@ Definition seek_ok (s : ur_self) (x : Z * Z * Z * Z * Z) : bool :=
   let '(d, t, spc, k, pos) := x in ur_recordposition s d t spc k =? pos.
 
 
-Definition checkF (c : case_t) : bool :=
+Definition checkF (c : ucase13) : bool :=
   zlist_eqb (enc (c_u c)) (c_ref c)
   && match mm_read (c_ref c) (4 * Z.of_nat (length (c_ref c))) with
      | Ok v => c_mm_ok c && view_eqb v (c_mm c)
@@ -29,14 +29,75 @@ Definition checkF (c : case_t) : bool :=
   && forallb (seek_ok (c_self c)) (c_seeks c).
 
 (* S: both readers terminate and expose the same lengths / data / names *)
-Definition checkS (c : case_t) : bool :=
+Definition checkS (c : ucase13) : bool :=
   negb (c_rd_timeout c) &&
   (if c_mm_ok c && c_rd_ok c then view_eqb (c_mm c) (c_rd c) else true).
 
 (* region 1: the file's time span crosses a year boundary in two-digit-year julian dates
    (end date numerically below the start date): timerange never terminates (C13_timerange_diverges_refuted) *)
-Definition region (c : case_t) : nat :=
+Definition region (c : ucase13) : nat :=
   let d0 := nth 0 (u_dates (c_u c)) 0 in let d1 := nth 2 (u_dates (c_u c)) 0 in
   if d1 <? d0 then 1%nat else 0%nat.
 
-Definition check (c : case_t) : verdict := (checkF c, checkS c, region c).
+(* ---- one3d family (one3d / humidity / vertical_diffusivity): Memmap reader vs record reader ---------------- *)
+Record ocase13 := OCase13 {
+  o13_c : one3d;
+  o13_hhmm : list Z;                          (* HHMM of each step as an integer *)
+  o13_ref : list word;                        (* reference-encoded file *)
+  o13_mm_ok : bool;  o13_mm : oview;          (* Memmap reader *)
+  o13_rd_ok : bool;  o13_rd : oview;          (* record reader (Read.py): dims and data (it has no TFLAG) *)
+  o13_rd_timeout : bool;
+  o13_self_ok : bool;                         (* the record reader was constructed and its fields are integral *)
+  o13_self : o3r_self;                        (* its header fields as it computed them *)
+  o13_count : Z;                              (* its time_step_count *)
+  o13_seeks : list (Z * Z * Z * Z)            (* (date, time, k, byte position) of the seeks of getArray, in order *)
+}.
+Definition oview_eqb_ns (a b : oview) : bool :=
+  (ov_nx a =? ov_nx b) && (ov_ny a =? ov_ny b) && (ov_nz a =? ov_nz b) && (ov_ntimes a =? ov_ntimes b)
+  && zlll_eqb (ov_data a) (ov_data b).
+Definition o3r_self_eqb (a b : o3r_self) : bool :=
+  (o3r_start_date a =? o3r_start_date b) && (o3r_start_time a =? o3r_start_time b)
+  && (o3r_time_step a =? o3r_time_step b) && (o3r_nlayers a =? o3r_nlayers b)
+  && (o3r_padded_size a =? o3r_padded_size b) && (o3r_data_start_byte a =? o3r_data_start_byte b).
+Definition rec_stamps (c : one3d) (hhmm : list Z) : list (Z * Z) :=
+  flat_map (fun p => repeat (os_date (fst p), snd p) (length (os_lays (fst p)))) (combine (o_steps c) hhmm).
+Definition oseek_ok (s : o3r_self) (ws : list word) (ncell : Z) (x : (Z * Z * Z * Z) * list word) : bool :=
+  let '((d, t, k, pos), cells) := x in
+  (o3r_recordposition s d t k =? pos) && zlist_eqb (cells_at ws pos ncell) cells.
+
+(* F: reference encoder == Coq encoder; Memmap model predicts the library; the hand-modelled probing predicts the
+   record reader's header fields (or that it cannot be constructed) and, in its domain, its step count; every seek
+   of getArray is at the TRANSLATED position and the cells it presents are the words found there *)
+Definition ocheckF13 (c : ocase13) : bool :=
+  let size := 4 * Z.of_nat (length (o13_ref c)) in
+  zlist_eqb (o_enc (o13_c c)) (o13_ref c)
+  && match o_mm_read (o_ny (o13_c c)) (o_nx (o13_c c)) (o13_ref c) size with
+     | Ok v => o13_mm_ok c && oview_eqb v (o13_mm c)
+     | Err => negb (o13_mm_ok c)
+     end
+  && match o3r_probe (nth 0 (o13_ref c) 0) (rec_stamps (o13_c c) (o13_hhmm c)) with
+     | Some s => o13_self_ok c && o3r_self_eqb s (o13_self c)
+                 && match o3r_step_count s size with Some n => n =? o13_count c | None => true end
+     | None => negb (o13_self_ok c)
+     end
+  && forallb (oseek_ok (o13_self c) (o13_ref c) (o_nx (o13_c c) * o_ny (o13_c c)))
+             (combine (o13_seeks c) (concat (ov_data (o13_rd c)))).
+Definition ocheckS13 (c : ocase13) : bool :=
+  negb (o13_rd_timeout c) &&
+  (if o13_mm_ok c && o13_rd_ok c then oview_eqb_ns (o13_mm c) (o13_rd c) else true).
+(* region 11: single-step file (neither reader can infer the layer count);
+   region 13: the two-digit-year julian date changes its year between consecutive steps *)
+Definition oregion13 (c : ocase13) : nat :=
+  let ds := o_dates (o13_c c) in
+  if Z.of_nat (length ds) <? 2 then 11%nat
+  else if existsb (fun p => negb (fst p / 1000 =? snd p / 1000)) (combine ds (tl ds)) then 13%nat else 0%nat.
+
+Inductive case_t :=
+| UC (c : ucase13)
+| OC (c : ocase13).
+
+Definition check (c : case_t) : verdict :=
+  match c with
+  | UC c => (checkF c, checkS c, region c)
+  | OC c => (ocheckF13 c, ocheckS13 c, oregion13 c)
+  end.
